@@ -6,10 +6,20 @@ props/C02.v characterises the model's decision, deciding rule and deciding child
 algorithm from the rule outcomes, so the model's (decision, rule id, policy id) is
 the only answer the property allows: a difference there is a violation; a
 difference only in reason/obligations breaks the correspondence the explanation
-theorems rest on."""
+theorems rest on.
+
+Histories (`hist` in a case): the answer is a function of the document AS IT IS NOW.  The same policy OBJECT is shown
+to the library in another state first (morph.py: one aspect changed everywhere — actions, resource targets,
+obligations, conditions, effects, algorithms, ids — or, here, `fewer`: the last rule / child dropped everywhere),
+evaluated, edited in place into the case's policy (identity of every dict / list kept) and evaluated again: directly
+(policy.evaluate / policy.decide / policyset.decide on the same object) and, for sets, through Guard
+(update_policy(same object), a new Guard(same object)).  Expected: the model's answer for the case's policy."""
+import asyncio
+import copy
 import itertools
 
 import lib
+import morph
 import polgen
 
 RUNNER = "engine"
@@ -34,6 +44,119 @@ def impl_eval(c):
                 "obligations": r.get("obligations"), "policy_id": r.get("policy_id")}
     except Exception as e:  # noqa: BLE001
         return ["Raise", type(e).__name__]
+
+
+LOCAL_MODES = ("fewer",)
+ALL_MODES = morph.MODES + LOCAL_MODES
+KEY = ("decision", "rule_id", "policy_id")
+
+
+def _walk(p):
+    if isinstance(p, dict):
+        yield p
+        if isinstance(p.get("policies"), list):
+            for ch in p["policies"]:
+                yield from _walk(ch)
+
+
+def perturb(policy, mode):
+    """morph.perturbed, plus the local mode `fewer` (every rule list and every child list one element shorter)"""
+    if mode != "fewer":
+        return morph.perturbed(policy, mode)
+    p = copy.deepcopy(policy)
+    for pol in list(_walk(p)):
+        for k in ("rules", "policies"):
+            if isinstance(pol.get(k), list) and pol[k]:
+                pol[k].pop()
+    return p
+
+
+def earlier_state(policy, mode):
+    """(mode used, perturbed copy): the first mode from `mode` on (cyclically) that changes something; (None, None) if
+    none does"""
+    k = ALL_MODES.index(mode) if mode in ALL_MODES else 0
+    for j in range(len(ALL_MODES)):
+        md = ALL_MODES[(k + j) % len(ALL_MODES)]
+        obj = perturb(policy, md)
+        if obj != policy:
+            return md, obj
+    return None, None
+
+
+def direct_history(c, mode):
+    """the entry point of the case on the same object: in its earlier state, then edited in place into c['policy']"""
+    md, obj = earlier_state(c["policy"], mode)
+    if obj is None:
+        return None
+    impl_eval({**c, "policy": obj})         # whatever it answers (or raises) for the earlier state
+    morph.morph(obj, c["policy"])
+    assert obj == c["policy"]
+    return {"how": "the same policy object was evaluated with other %s, edited in place into this policy and evaluated "
+                   "again (%s)" % (md, {"set": "policyset.decide", "decide": "policy.decide"}.get(c.get("entry"), "policy.evaluate")),
+            "answer": impl_eval({**c, "policy": obj})}
+
+
+async def guard_history(c, mode, want_fresh):
+    """through Guard: morph.morph_runs (Guard(earlier state) asked, object edited in place, update_policy(same object)
+    / a new Guard(same object) asked again); with want_fresh also the answer of a Guard on a fresh deep copy.
+    Returns (runs, fresh)"""
+    from rbacx.core.cache import DefaultInMemoryCache
+    from rbacx.core.engine import Guard
+    from rbacx.core.model import Action, Context, Resource, Subject
+
+    env = c["env"]
+    md, _obj = earlier_state(c["policy"], mode if mode in morph.MODES else "actions")
+    if md is None or md not in morph.MODES:
+        return None, None
+    sub, res = env.get("subject") or {}, env.get("resource") or {}
+    s = Subject(id=sub.get("id"), roles=list(sub.get("roles") or []), attrs=dict(sub.get("attrs") or {}))
+    a = Action(env.get("action"))
+    r = Resource(type=res.get("type"), id=res.get("id"), attrs=dict(res.get("attrs") or {}))
+    ctx = Context(dict(env.get("context") or {}))
+    with_cache = bool(c.get("hist", {}).get("cache"))
+
+    def mk(pol):
+        return Guard(pol, strict_types=bool(env.get("__strict_types__")),
+                     cache=DefaultInMemoryCache() if with_cache else None)
+
+    async def ask(g):
+        d = await g.evaluate_async(s, a, r, ctx)
+        return {"decision": d.effect, "rule_id": d.rule_id, "policy_id": d.policy_id, "obligations": d.obligations}
+
+    runs = await morph.morph_runs(mk, c["policy"], ask, [md])
+    fresh = None
+    if want_fresh:
+        try:
+            fresh = await ask(mk(copy.deepcopy(c["policy"])))
+        except Exception as e:  # noqa: BLE001
+            fresh = ["Raise", type(e).__name__]
+    return runs, fresh
+
+
+def plan_histories(chk, cases):
+    """which generated cases also run as a history, and from which earlier state (rotating; `actions` every second
+    time for sets: that is what set evaluators are tempted to index their children by)"""
+    others = [m for m in ALL_MODES if m != "actions"]
+    gm = [m for m in others if m in morph.MODES]
+    quick = chk.tier == "quick"
+    ks = kp = kd = kg = kh = 0
+    for c in cases:
+        h = {}
+        if c.get("entry") == "set":
+            h["mode"] = "actions" if kd % 2 == 0 else others[(kd // 2) % len(others)]      # every set (cheap)
+            kd += 1
+            if (ks + chk.seed) % (8 if quick else 2) == 0:
+                h["guard_mode"] = "actions" if kg % 2 == 0 else gm[(kg // 2) % len(gm)]
+                h["cache"] = kg % 4 >= 2
+                kg += 1
+            ks += 1
+        else:
+            if (kp + chk.seed) % (6 if quick else 3) == 0:
+                h["mode"] = ALL_MODES[kh % len(ALL_MODES)]
+                kh += 1
+            kp += 1
+        if h:
+            c["hist"] = h
 
 
 def gen_cases(chk):
@@ -129,6 +252,7 @@ def gen_cases(chk):
                {"policies": [{"policies": []}]}, {"algorithm": "bogus", "policies": [pool[0][1], pool[1][1]]},
                {"algorithm": "bogus", "policies": [pool[1][1], pool[0][1]]}):
         cases.append({"fam": "setshape", "policy": ps, "env": env, "entry": "set"})
+    plan_histories(chk, cases)
     return cases
 
 
@@ -140,6 +264,7 @@ def check_cases(chk, cases, replay=False):
         else:
             lines.append(lib.model_call("policy.evaluate", c.get("override"), c["policy"], c["env"], None))
     outs = [lib.dec(x) for x in lib.run_model(RUNNER, lines)]
+    todo = []
     for c, m in zip(cases, outs):
         i = impl_eval(c)
         chk.count("fam:" + c.get("fam", "?"))
@@ -163,13 +288,60 @@ def check_cases(chk, cases, replay=False):
         if isinstance(i, list):
             chk.violation("evaluation raised", c, impl=i, model=m)
             continue
-        key = ("decision", "rule_id", "policy_id")
+        key = KEY
         if any(i[k] != m[k] for k in key):
             chk.violation("decision / deciding rule / deciding child differ from what the combining algorithm "
                           "prescribes (model = characterisation proved in props/C02.v)", c, impl=i, model=m)
-        elif i != m:
+            continue
+        if i != m:
             chk.corr_break("reason/obligations differ between model and implementation", c, impl=i, model=m,
                            theorems=["c02_reason_*", "C11"])
+        if c.get("hist"):
+            todo.append((c, i, m))
+    check_histories(chk, todo)
+
+
+def check_histories(chk, todo):
+    """for each (case, fresh answer i, model answer m) — i agrees with m on the decision —: the same answer is due for
+    the same policy OBJECT after the library saw it in an earlier state"""
+    wanted = [(c, m) for c, _i, m in todo if c["hist"].get("guard_mode") and c.get("entry") == "set"]
+
+    async def guards():
+        return [await guard_history(c, c["hist"]["guard_mode"],
+                                    want_fresh=(m["decision"] == "permit" and bool(m.get("obligations"))))
+                for c, m in wanted]
+
+    gres = dict(zip((id(c) for c, _m in wanted), asyncio.run(guards()))) if wanted else {}
+    for c, i, m in todo:
+        h = c["hist"]
+        full = i == m             # then reason / obligations are the model's too, whatever happened to the object before
+        bad = []
+        if h.get("mode"):
+            d = direct_history(c, h["mode"])
+            if d is not None:
+                chk.count("hist:direct:" + h["mode"])
+                a = d["answer"]
+                if isinstance(a, list) or any(a[k] != m[k] for k in KEY) or (full and a != m):
+                    bad.append(d)
+        runs, fresh = gres.get(id(c), (None, None))
+        if runs:
+            chk.count("hist:guard:" + h["guard_mode"])
+            # Guard turns a permit whose obligations are unmet into a deny (another property's matter): the effect
+            # expected then is the one a Guard on a fresh deep copy gives
+            effect = fresh["decision"] if isinstance(fresh, dict) else m["decision"]
+            for run in runs:
+                a = run["decision"]
+                if (isinstance(a, list) or a["decision"] != effect or a["rule_id"] != m["rule_id"]
+                        or a["policy_id"] != m["policy_id"]
+                        or (full and list(a["obligations"] or []) != list(m.get("obligations") or []))):
+                    bad.append({"how": run["how"], "answer": a})
+        if bad:
+            chk.violation("the answer for a policy document depends on an earlier state of the same policy OBJECT: "
+                          "after the object was edited in place into this policy, decision / deciding rule / deciding "
+                          "child (or, where the fresh evaluation has the model's, reason / obligations) differ from "
+                          "what the combining algorithm prescribes for the policy as it is now (model = "
+                          "characterisation proved in props/C02.v; a fresh copy of the document is answered as the "
+                          "model says)", c, impl={"fresh": i, "after_history": bad}, model=m)
 
 
 def corpus_cases():
@@ -186,6 +358,10 @@ def run(chk):
                 "condition false / condition ill-typed) x effect up to length 4 (thorough 5; the longest length with a third resp. half of the algorithm settings per pattern, rotating with the seed) x 3 algorithms + absent; "
                 "algorithm argument and spellings; every set of <= 3 children over a pool of 12 child policies x "
                 "algorithms; random nested sets to depth 3. non-trivial = some rule applied (a rule id is reported); "
-                "distinct = distinct (document, entry point)")
+                "distinct = distinct (document, entry point). histories (counts hist:*): the same policy object seen in an "
+                "earlier state (other actions / resource targets / obligations / conditions / effects / algorithms / ids, "
+                "or one rule and child fewer), edited in place into the case's policy and evaluated again — directly "
+                "for every set and every 6th (thorough 3rd) policy, through Guard (update_policy(same object), a new "
+                "Guard(same object), with and without a decision cache) for every 8th (thorough 2nd) set")
     cases = corpus_cases() + gen_cases(chk)
     check_cases(chk, cases)
